@@ -1,25 +1,71 @@
-use ropey::Rope;
-
 use syntax::parser::TextSize;
 
+/// Maps byte offsets to lines and UTF-16 columns and back.
+///
+/// Lines end at LF, CR LF or a lone CR, as the language server protocol defines them;
+/// columns count UTF-16 code units, its default position encoding.
 #[derive(Debug, Eq, PartialEq)]
 pub struct LineIndex {
-    rope: Rope,
+    text: String,
+    /// byte offset of the first character of every line
+    line_starts: Vec<usize>,
 }
 
 impl LineIndex {
     pub fn new(text: &str) -> Self {
+        let mut line_starts = vec![0];
+        let bytes = text.as_bytes();
+        for (i, b) in bytes.iter().enumerate() {
+            match b {
+                b'\n' => line_starts.push(i + 1),
+                b'\r' if bytes.get(i + 1) != Some(&b'\n') => line_starts.push(i + 1),
+                _ => {}
+            }
+        }
         Self {
-            rope: Rope::from_str(text),
+            text: text.to_string(),
+            line_starts,
         }
     }
 
+    /// The zero-based line containing the byte offset `pos`.
     pub fn pos_to_line(&self, pos: TextSize) -> usize {
-        self.rope.char_to_line(pos.into())
+        let pos: usize = pos.into();
+        self.line_starts.partition_point(|&start| start <= pos) - 1
     }
 
+    /// The byte offset of the start of `line`; the end of the text for a line past the last one.
     pub fn line_to_pos(&self, line: usize) -> TextSize {
-        let pos = self.rope.line_to_char(line);
+        let pos = match self.line_starts.get(line) {
+            Some(&start) => start,
+            None => self.text.len(),
+        };
         TextSize::try_from(pos).expect("line index out of bounds")
+    }
+
+    /// The UTF-16 column of the byte offset `pos` within its line.
+    pub fn pos_to_col(&self, pos: TextSize) -> u32 {
+        let mut pos = usize::from(pos).min(self.text.len());
+        while !self.text.is_char_boundary(pos) {
+            pos -= 1;
+        }
+        let line_start = self.line_starts[self.pos_to_line(TextSize::try_from(pos).unwrap())];
+        self.text[line_start..pos].encode_utf16().count() as u32
+    }
+
+    /// The byte offset of the UTF-16 column `col` of `line`; a column past the end of the
+    /// line means the end of the line (before its terminator).
+    pub fn line_col_to_pos(&self, line: usize, col: u32) -> TextSize {
+        let line_start = usize::from(self.line_to_pos(line));
+        let mut pos = line_start;
+        let mut units = 0;
+        for c in self.text[line_start..].chars() {
+            if c == '\n' || c == '\r' || units + c.len_utf16() as u32 > col {
+                break;
+            }
+            units += c.len_utf16() as u32;
+            pos += c.len_utf8();
+        }
+        TextSize::try_from(pos).expect("position out of bounds")
     }
 }
